@@ -96,6 +96,8 @@ Alphabet ==
        {Sym("connect", m, "ok") : m \in {"ok", "err", "disc", "nocred", "sserr", "ssdisc"}}
   \cup {Sym(k, m, "ok") : k \in HandlerKinds, m \in Modes4}
   \cup {Sym("refresh", "expired", "ok")}
+  \* the handler grants an expiration that is not in the future: answered with the error "expired", nothing else
+  \cup {Sym("refresh", "past", "ok"), Sym("sub_refresh", "past", "ok")}
   \cup {Sym("sub_refresh", "tagschange", "ok")}
   \cup {Sym("unsubscribe", "ok", "ok"), Sym("send", "ok", "ok")}
   \cup {Sym(k, "ok", "emptych") : k \in ChannelKinds}
@@ -160,10 +162,11 @@ Result(kind, i, res) ==
     [] res = "err"                      -> Eff(<<ErrReply(i, HandlerErr)>>, <<>>, IF kind = "subscribe" THEN "none" ELSE sub, <<>>, FALSE)
     [] res = "disc"                     -> Eff(<<>>, <<HandlerDisc>>, IF kind = "subscribe" THEN "none" ELSE sub, <<>>, FALSE)
     [] res = "expired"                  -> Eff(<<>>, <<Expired>>, sub, <<>>, FALSE)
+    [] res = "past"                     -> Eff(<<ErrReply(i, EExpired)>>, <<>>, sub, <<>>, FALSE)
     \* the callback changed the server tags filter of a map subscription: the subscription is ended with
-    \* "state invalidated" AND the command is answered (DESIGN section 10 item 12: the code does not answer)
+    \* "state invalidated" AND the command is answered first (DESIGN section 10 item 12, repaired in 2d880987)
     [] res = "tagschange"               -> IF sub = "live" /\ cfg.mapsub
-                                             THEN Eff(<<UnsubPush(UnsubInvalidated), Reply(i, kind)>>, <<>>, "none",
+                                             THEN Eff(<<Reply(i, kind), UnsubPush(UnsubInvalidated)>>, <<>>, "none",
                                                       <<CB("unsubscribe", 0, UnsubInvalidated)>>, FALSE)
                                              ELSE Eff(<<Reply(i, kind)>>, <<>>, sub, <<>>, FALSE)
 
@@ -289,6 +292,7 @@ Cmd(a, im) ==
   /\ UNCHANGED <<cfg, nfire, nenv>>
 
 Results(kind) == {"ok", "err", "disc"} \cup (IF kind = "refresh" THEN {"expired"} ELSE {})
+                                       \cup (IF kind \in {"refresh", "sub_refresh"} THEN {"past"} ELSE {})
                                        \cup (IF kind = "sub_refresh" /\ cfg.mapsub THEN {"tagschange"} ELSE {})
 
 (* the application calls a callback it kept *)
@@ -354,7 +358,7 @@ CloseRun(j) ==
 Act ==
   IF UrgentClose /\ closing # <<>> THEN CloseRun(1) ELSE
   \/ \E a \in Alphabet, im \in {"zero", "fresh", "dup", "none"} : Cmd(a, im)
-  \/ \E p \in pend, r \in {"ok", "err", "disc", "expired", "tagschange"} : Complete(p, r)
+  \/ \E p \in pend, r \in {"ok", "err", "disc", "expired", "tagschange", "past"} : Complete(p, r)
   \/ TimerFire \/ ServerDisconnect \/ TransportClose
   \/ \E j \in 1..Len(closing) : CloseRun(j)
 
@@ -425,6 +429,12 @@ C09_Handlers ==
   \A n \in 1..Len(cmds) : Cardinality({x \in 1..Len(cb) : cb[x].n = n}) <= 1
 
 C09 == C09_Gate /\ C09_FailedConnect /\ C09_Once /\ C09_Pong /\ C09_Handlers
+
+\* witness (negated scenario, its counterexample is replayed on every run): ping, pong, the pong check passes, one
+\* more pong before the next ping - refused
+WitPongAfterCheck ==
+  ~(status = "closed" /\ nfire = 2 /\ lp = "neg" /\ Len(cmds) = 3 /\ PongLike(cmds[2]) /\ PongLike(cmds[3])
+    /\ cmds[2].kind = "empty" /\ cmds[3].kind = "empty" /\ Len(out) = 3)
 
 TypeOK ==
   /\ status \in {"connecting", "connected", "closed"}
